@@ -194,6 +194,7 @@ pub fn check_text(text: &str) -> Result<(Outcome, &'static str), String> {
 const HOLE: &str = "\u{1}";
 
 const FRAMES: &[(&str, &[&str])] = &[
+    ("start-of-file", &[HOLE, "package", "a", ";", "interface", "I", "{", "}"]),
     ("between-statements", &["package", "a", ";", HOLE, "interface", "I", "{", "}"]),
     ("interface-body", &["package", "a", ";", "interface", "I", "{", HOLE, "}"]),
     ("parcelable-body", &["package", "a", ";", "parcelable", "P", "{", HOLE, "}"]),
@@ -295,6 +296,9 @@ const LEXICAL: &[&str] = &[
     "\u{65e5}\u{672c}", "1.5.2", "+", "+1", "-", "-.5f", "1e5", "0x10", "'a'", "\"a\\\"b\"", "\"a\nb\"", "@", "@1", "@a.b", "true1", "_", "__", "a-b",
     "a--b", "1-2", "1 - 2", "{1-2}", "a.b.c", "a..b", ".", "1\u{0663}", "\u{0663}", "\u{FF11}f", "x\u{00A0}y", "x\u{3000}.\u{2003}y", "/**/1", "1/**/",
     "1//\n", "\"//\"", "\"/*\"", "/* \" */ 1", "\0", "\u{FEFF}1",
+    "1F", "1.5F", "1L", "0x1F", "1_000", "1.5d", "1.f", "1..2", "\"a\tb\"", "\"a\rb\"", "@A.b", "a$b", "$a", "a#", "true_", "True", "TRUE", "null",
+    "Int", "STRING", "string", "list", "MAP", "Void", "IN", "Oneway", "1e", "-", "- 1", "+ 1", "--", "/", "*", "/ /", "/* * /", "/** /", "/* */ */",
+    "// \r x", "\u{2028}1", "1\u{2029}", "\u{0085}", "\u{200B}", "\u{00AD}x", "x\u{200D}", "\u{FF21}", "\u{0430}", "_\u{0663}", "a\u{0663}",
 ];
 
 impl C03 {
@@ -334,7 +338,7 @@ impl Prop for C03 {
         "C03"
     }
     fn rule(&self) -> String {
-        "enumerated: (1) sixteen well-formed frames with a hole (between statements, interface / parcelable / enum body, argument list, type, value, annotation parameters, after the item, qualified name, import name, forward-declaration name, after a method's parenthesis, enum element value, inside a generic, item header) x every sequence of token kinds (34 kinds, one representative text each) up to length 2 (thorough 3); (2) every keyword and reserved word and four near-keywords derived from each, in each of 14 identifier positions. Random: token-level mutations (insert / delete / replace / swap / duplicate / truncate / splice / keyword-as-name) of rendered documents under random layouts, token soups, and lexical boundary strings / character soups inside a value slot. Oracle: reference verdict (hand-written lexer + Earley recogniser over the transcribed grammar) well-formed <=> parse-stage result clean (tree and no diagnostic, via the hook accessor); malformed => >= 1 Error in the parse-stage result, all syntax diagnostics kept by validate(), first syntax diagnostic at the reference's first non-viable token; no tree => >= 1 Error; no keyword / reserved word stored as a user-chosen identifier in any returned tree. Non-trivial = malformed with the first error after token 0, or well-formed with > 8 tokens; distinct by token-kind sequence.".into()
+        "enumerated: (1) seventeen well-formed frames with a hole (start of file, between statements, interface / parcelable / enum body, argument list, type, value, annotation parameters, after the item, qualified name, import name, forward-declaration name, after a method's parenthesis, enum element value, inside a generic, item header) x every sequence of token kinds (34 kinds, one representative text each) up to length 2 (thorough 3); (2) every keyword and reserved word and four near-keywords derived from each, in each of 14 identifier positions. Random: token-level mutations (insert / delete / replace / swap / duplicate / truncate / splice / keyword-as-name) of rendered documents under random layouts, token soups, and lexical boundary strings / character soups inside a value slot. Oracle: reference verdict (hand-written lexer + Earley recogniser over the transcribed grammar) well-formed <=> parse-stage result clean (tree and no diagnostic, via the hook accessor); malformed => >= 1 Error in the parse-stage result, all syntax diagnostics kept by validate(), first syntax diagnostic at the reference's first non-viable token; no tree => >= 1 Error; no keyword / reserved word stored as a user-chosen identifier in any returned tree. Non-trivial = malformed with the first error after token 0, or well-formed with > 8 tokens; distinct by token-kind sequence.".into()
     }
     fn assumptions(&self) -> Vec<String> {
         vec![
